@@ -25,7 +25,7 @@ def bdays(d0, d1):
 
 def gen_config(rng, alpha_kinds=("fixed", "single"), allow_fail=True):
     """One configuration (plain dict, JSON-able)."""
-    d0 = rng.choice([18267, 18267, 18269, 18288, 18289, 18290, 18293, 18317])   # Jan 6, 8, 27-29, Feb 1 (Sat), Feb 25 2020
+    d0 = rng.choice([18267, 18267, 18269, 18288, 18289, 18290, 18293, 18317, 18271, 18292, 18270])   # Jan 6, 8, 27-29, Feb 1 (Sat), Feb 25, Fri Jan 10, Fri Jan 31 (month end), Thu Jan 9 2020
     nb = rng.randint(3, 11)
     d1 = d0
     while len(bdays(d0, d1)) < nb:
@@ -334,6 +334,21 @@ def _build_session(c, csv_dir, signals_factory=None, alpha_factory=None, data_so
         rebalance={"weekly": "weekly", "daily": "daily", "eom": "end_of_month", "bah": "buy_and_hold"}[c["sched"]],
         long_only=(c["kind"] == "dw"), fee_model=fee, burn_in_dt=(None if c["burn"] == -1 else ts(c["burn"])),
         data_handler=dh, **kw)
+    if c.get("split_orders"):
+        # a user-supplied execution algorithm (public extension point): every rebalance order is sent as two child orders
+        # of unequal size, so that one update fills several orders on the same side of the same asset
+        from qstrader.execution.execution_algo.execution_algo import ExecutionAlgorithm
+        from qstrader.execution.order import Order
+
+        class _Split(ExecutionAlgorithm):
+            def __call__(self, dt, initial_orders):
+                out = []
+                for o in initial_orders:
+                    q = int(o.quantity)
+                    a = q // 3
+                    out.extend([Order(dt, o.asset, x) for x in (a, q - a) if x != 0])
+                return out
+        sess.qts.execution_handler.execution_algo = _Split()
     return sess
 
 
